@@ -2603,5 +2603,311 @@ theorem wired_killLayer {ds} {h : Heap} (w : WiredX ds h) {l s f : Id} (c : Laye
   · show ¬ ((endSelf (nl.kids.foldl (stepL l) h1) l).get l).bind owner = some s
     rw [base.2.2]; simp [owner_cleared nl knf]
 
+
+/-! ### Filling caches -/
+
+/-- every accessor of a leaf answers the true container of its kind -/
+theorem leaf_exact {ds} {h : Heap} (s : Struct ds h) {x : Id} {n : Node} (e : h.get x = some n) (kleaf : n.kind.isLeaf = true) :
+    glyphOf h x = ancOf h .glyph x ∧ layerOf h x = ancOf h .layer x ∧ layerSetOf h x = ancOf h .layerSet x ∧
+    fontOf h x = ancOf h .font x ∧ dispOf h x = ancOf h .font x := by
+  have knf : n.kind ≠ .font := by intro hk; simp [hk, Kind.isLeaf] at kleaf
+  cases eg : n.pGlyph with
+  | some g =>
+    obtain ⟨ng, _, _, _, A1, A2, A3, A4, L, LS, F, D⟩ := exact_leaf_glyph s e kleaf eg
+    exact ⟨by rw [glyphOf_leaf e kleaf, eg, A1], by rw [L, A2], by rw [LS, A3], by rw [F, A4], by rw [D, A4]⟩
+  | none =>
+    cases el : n.pLayer with
+    | some l =>
+      obtain ⟨nl, _, _, _, A1, A2, A3, A4, L, LS, F, D⟩ := exact_leaf_layer s e kleaf eg el
+      exact ⟨by rw [glyphOf_leaf e kleaf, eg, A1], by rw [L, A2], by rw [LS, A3], by rw [F, A4], by rw [D, A4]⟩
+    | none =>
+      cases ef : n.pFont with
+      | some f =>
+        obtain ⟨_, _, A1, A2, A3, A4, L, LS, F, D⟩ := exact_leaf_font s e kleaf eg el ef
+        exact ⟨by rw [glyphOf_leaf e kleaf, eg, A1], by rw [L, A2], by rw [LS, A3], by rw [F, A4], by rw [D, A4]⟩
+      | none =>
+        have eo : owner n = none := by cases hk : n.kind <;> simp [owner, hk, eg, el, ef, Kind.isLeaf] at kleaf ⊢
+        obtain ⟨A, G, L, LS, F, D, _⟩ := exact_loose s e knf eo
+        exact ⟨by rw [G, A], by rw [L, A], by rw [LS, A], by rw [F, A], by rw [D, A]⟩
+
+/-- replacing the caches of a node: same kind, children and owner -/
+theorem wired_recache {ds} {h h' : Heap} (w : WiredX ds h) {z : Id} {n n' : Node}
+    (ez : h.get z = some n) (hg : ∀ i, h'.get i = if z = i then some n' else h.get i)
+    (hregs : h'.regs = h.regs)
+    (hkind : n'.kind = n.kind) (hkids : n'.kids = n.kids) (hown : owner n' = owner n)
+    (shape : (n'.kind.isLeaf = false → n'.pGlyph = none) ∧
+      (n'.kind = .font → n'.pLayer = none ∧ n'.pLayerSet = none ∧ n'.pFont = none ∧ n'.disp = none) ∧
+      (n'.kind = .layerSet → n'.pLayer = none ∧ n'.pLayerSet = none) ∧
+      (n'.kind = .layer → n'.pLayer = none ∧ n'.pFont = none))
+    (loose : owner n' = none →
+      n'.pGlyph = none ∧ n'.pLayer = none ∧ n'.pLayerSet = none ∧ n'.pFont = none ∧ n'.disp = none)
+    (refs : ∀ a,
+      (n'.pGlyph = some a → ancOf h .glyph z = some a) ∧ (n'.pLayer = some a → ancOf h .layer z = some a) ∧
+      (n'.pLayerSet = some a → ancOf h .layerSet z = some a) ∧ (n'.pFont = some a → ancOf h .font z = some a) ∧
+      (n'.disp = some a → ancOf h .font z = some a))
+    (full : (n'.kind = .glyph → n'.pLayer ≠ none → n'.pLayerSet ≠ none ∧ n'.pFont ≠ none) ∧
+      (n'.kind = .layer → n'.pLayerSet ≠ none → ancOf h .font z ≠ none)) : WiredX ds h' := by
+  have hne : ∀ i, i ≠ z → h'.get i = h.get i := fun i hi => by rw [hg]; simp [Ne.symm hi]
+  have hzz : h'.get z = some n' := by rw [hg]; simp
+  have hk : ∀ i, h'.kindOf i = h.kindOf i := fun i => by
+    by_cases e : i = z
+    · subst e; simp [Heap.kindOf, hzz, ez, hkind]
+    · simp [Heap.kindOf, hne i e]
+  have ho : ∀ i, h'.ownerOf i = h.ownerOf i := fun i => by
+    by_cases e : i = z
+    · subst e; simp [Heap.ownerOf, hzz, ez, hown]
+    · simp [Heap.ownerOf, hne i e]
+  have hkidsOf : ∀ i, h'.kidsOf i = h.kidsOf i := fun i => by
+    by_cases e : i = z
+    · subst e; simp [Heap.kidsOf, hzz, ez, hkids]
+    · simp [Heap.kidsOf, hne i e]
+  have hanc : ∀ k i, ancOf h' k i = ancOf h k i := fun k i => anc_congr ho hk k 4 i
+  have halive : ∀ p, h'.alive p ↔ h.alive p := fun p => by
+    by_cases e : p = z
+    · subst e; simp [Heap.alive, hzz, ez, hkind, hown]
+    · simp [Heap.alive, hne p e]
+  refine ⟨⟨?_, ?_, ?_, ?_, ?_, ?_, ?_, ?_⟩, ?_⟩
+  · intro q nq y e hy
+    have : y ∈ h.kidsOf q := by rw [← hkidsOf, kidsOf_eq e]; exact hy
+    obtain ⟨nq0, eq0, hm⟩ := mem_kidsOf this
+    obtain ⟨ny, ey, hay⟩ := w.kKids q nq0 y eq0 hm
+    have k1 : nq.kind = nq0.kind := by
+      have := hk q; rw [kindOf_eq e, kindOf_eq eq0] at this; simpa using this
+    have := hk y
+    rw [kindOf_eq ey] at this
+    obtain ⟨ny', ey', eky⟩ := kindOf_some this
+    exact ⟨ny', ey', by rw [k1, eky]; exact hay⟩
+  · intro q nq e
+    by_cases eq : q = z
+    · subst eq; rw [hzz] at e; cases e; rw [hkids]; exact w.kidsNodup q n ez
+    · rw [hne q eq] at e; exact w.kidsNodup q nq e
+  · intro y ny e
+    by_cases eq : y = z
+    · subst eq; rw [hzz] at e; cases e; exact shape
+    · rw [hne y eq] at e; exact w.shape y ny e
+  · intro y ny q e eo
+    rw [hkidsOf]
+    have : h.ownerOf y = some q := by rw [← ho, ownerOf_eq e]; exact eo
+    obtain ⟨n0, e0, eo0⟩ := ownerOf_some this
+    exact w.up y n0 q e0 eo0
+  · intro q y hq hqd hy
+    rw [hkidsOf] at hy; rw [ho]
+    exact w.down q y ((halive q).mp hq) hqd hy
+  · intro y ny e eo
+    by_cases eq : y = z
+    · subst eq; rw [hzz] at e; cases e; exact loose eo
+    · rw [hne y eq] at e; exact w.loose y ny e eo
+  · intro y ny a e
+    simp only [hanc]
+    by_cases eq : y = z
+    · subst eq; rw [hzz] at e; cases e; exact refs a
+    · rw [hne y eq] at e; exact w.refs y ny a e
+  · intro y ny e
+    simp only [hanc]
+    by_cases eq : y = z
+    · subst eq; rw [hzz] at e; cases e; exact full
+    · rw [hne y eq] at e; exact w.full y ny e
+  · intro r hr
+    rw [hregs] at hr
+    exact regOK_transfer (fun i k e => by rw [hk]; exact e) (ho _) (hanc _ _) (w.regSound r hr)
+
+/-- only a lib stores a layer without storing a glyph -/
+theorem layer_ref_is_lib {ds} {h : Heap} (s : Struct ds h) {x l : Id} {n : Node} (e : h.get x = some n)
+    (k : n.kind.isLeaf = true) (eg : n.pGlyph = none) (el : n.pLayer = some l) : n.kind = .lib := by
+  by_cases hl : n.kind = .lib
+  · exact hl
+  exfalso
+  by_cases hg : n.kind = .guideline
+  · cases ef : n.pFont with
+    | none => have := s.loose x n e (by simp [owner, hg, eg, ef]); simp [el] at this
+    | some f =>
+      have h1 := (s.refs x n f e).2.2.2.1 ef
+      have ho : h.ownerOf x = some f := by rw [ownerOf_eq e]; simp [owner, hg, eg, ef]
+      have kf := ancOf_kind h1
+      have h2 := (s.refs x n l e).2.1 el
+      rw [ancOf_ne s ho (by rw [kf]; simp), ancOf_none s (ownerOf_font kf)] at h2
+      simp at h2
+  · have : owner n = none := by cases hk : n.kind <;> simp [owner, hk, eg, Kind.isLeaf] at k hl hg ⊢
+    have := s.loose x n e this
+    simp [el] at this
+
+theorem fill_owner {ds} {h : Heap} (w : WiredX ds h) {x : Id} {n : Node} (ex : h.get x = some n)
+    (hl : n.kind.isLeaf = true) :
+    owner { n with pLayer := layerOf h x, pLayerSet := layerSetOf h x, pFont := fontOf h x, disp := dispOf h x } = owner n := by
+  have kf : n.kind ≠ .font := by intro hk; simp [hk, Kind.isLeaf] at hl
+  cases eg : n.pGlyph with
+  | some g =>
+    rw [owner_leaf_glyph hl eg]
+    exact owner_leaf_glyph (n := { n with pGlyph := some g, pLayer := layerOf h x, pLayerSet := layerSetOf h x, pFont := fontOf h x, disp := dispOf h x }) hl rfl
+  | none =>
+    have L0 : layerOf h x = n.pLayer := by rw [layerOf_leaf ex hl, eg]; simp
+    cases el : n.pLayer with
+    | some l =>
+      have hk := layer_ref_is_lib w.toStruct ex hl eg el
+      simp [owner, hk, eg, el, L0]
+    | none =>
+      have F0 : fontOf h x = n.pFont := by
+        cases ef : n.pFont with
+        | some f =>
+          obtain ⟨_, _, _, _, _, _, _, _, F1, _⟩ := exact_leaf_font w.toStruct ex hl eg el ef
+          exact F1
+        | none =>
+          have eo : owner n = none := by cases hk : n.kind <;> simp [owner, hk, eg, el, ef, Kind.isLeaf] at hl ⊢
+          obtain ⟨_, _, _, _, F1, _⟩ := exact_loose w.toStruct ex kf eo
+          exact F1
+      cases hk : n.kind <;> simp [owner, hk, eg, el, L0, F0, Kind.isLeaf] at hl ⊢
+
+theorem wired_fill {ds} {h : Heap} (w : WiredX ds h) (x : Id) : WiredX ds (fill h x) := by
+  unfold fill
+  cases ex : h.get x with
+  | none =>
+    refine wired_regs w (fun i => ?_) (fun r hr => Or.inl (by simpa using hr))
+    rw [get_upd]; by_cases e : x = i
+    · subst e; simp [ex]
+    · simp [e]
+  | some n =>
+    by_cases kf : n.kind = .font
+    · refine wired_regs w (fun i => ?_) (fun r hr => Or.inl (by simpa using hr))
+      rw [get_upd]; by_cases e : x = i
+      · subst e; simp [ex, kf]
+      · simp [e]
+    · obtain ⟨F, D⟩ := font_exact w.toStruct ex kf
+      cases hl : n.kind.isLeaf with
+      | false =>
+        -- a container: only the cached dispatcher
+        refine wired_recache (n' := { n with disp := dispOf h x }) w ex (fun i => ?_) (by simp) rfl rfl ?_ ?_ ?_ ?_ ?_
+        · rw [get_upd]; by_cases e : x = i
+          · subst e; simp [ex, kf, hl]
+          · simp [e]
+        · cases hk : n.kind <;> simp [owner, hk]
+        · have := w.shape x n ex
+          exact ⟨this.1, fun hk => absurd hk kf, this.2.2.1, this.2.2.2⟩
+        · intro eo
+          have eo' : owner n = none := by cases hk : n.kind <;> simp [owner, hk] at eo ⊢ <;> exact eo
+          obtain ⟨a, b, c, d, _⟩ := w.loose x n ex eo'
+          have ho : h.ownerOf x = none := by rw [ownerOf_eq ex]; exact eo'
+          refine ⟨a, b, c, d, ?_⟩
+          simp only; rw [D, ancOf_none w.toStruct ho]
+        · intro a
+          obtain ⟨r1, r2, r3, r4, _⟩ := w.refs x n a ex
+          exact ⟨r1, r2, r3, r4, fun hd => by simp only at hd; rw [← D]; exact hd⟩
+        · exact (w.full x n ex)
+      | true =>
+        obtain ⟨G, L, LS, F', D'⟩ := leaf_exact w.toStruct ex hl
+        have hown := fill_owner w ex hl
+        refine wired_recache (n' := { n with pLayer := layerOf h x, pLayerSet := layerSetOf h x, pFont := fontOf h x, disp := dispOf h x })
+          w ex (fun i => ?_) (by simp) rfl rfl hown ?_ ?_ ?_ ?_
+        · rw [get_upd]; by_cases e : x = i
+          · subst e; simp [ex, kf, hl]
+          · simp [e]
+        · refine ⟨fun hh => by simp [hl] at hh, fun hk => absurd hk kf, fun hk => ?_, fun hk => ?_⟩ <;>
+            (simp only at hk; rw [hk] at hl; simp [Kind.isLeaf] at hl)
+        · intro eo
+          rw [hown] at eo
+          have ho : h.ownerOf x = none := by rw [ownerOf_eq ex]; exact eo
+          obtain ⟨a, _⟩ := w.loose x n ex eo
+          refine ⟨a, ?_, ?_, ?_, ?_⟩ <;> simp only
+          · rw [L, ancOf_none w.toStruct ho]
+          · rw [LS, ancOf_none w.toStruct ho]
+          · rw [F', ancOf_none w.toStruct ho]
+          · rw [D', ancOf_none w.toStruct ho]
+        · intro a
+          refine ⟨(w.refs x n a ex).1, fun hh => ?_, fun hh => ?_, fun hh => ?_, fun hh => ?_⟩ <;> simp only at hh
+          · rw [← L]; exact hh
+          · rw [← LS]; exact hh
+          · rw [← F']; exact hh
+          · rw [← D']; exact hh
+        · refine ⟨fun hk => ?_, fun hk => ?_⟩ <;>
+            (simp only at hk; rw [hk] at hl; simp [Kind.isLeaf] at hl)
+
+
+/-! ### The objects the containers build -/
+
+theorem wired_cacheAll {ds} {h : Heap} (w : WiredX ds h) : WiredX ds (cacheAll h) := by
+  unfold cacheAll
+  generalize List.range h.next = xs
+  induction xs generalizing h with
+  | nil => exact w
+  | cons x xs ih => rw [List.foldl_cons]; exact ih (wired_fill w x)
+
+theorem spawnOK_leafInGlyph {h : Heap} {g : Id} {k : Kind} (kg : h.kindOf g = some .glyph) (kl : k.isLeaf = true) :
+    SpawnOK h g { kind := k, pGlyph := some g } := by
+  refine ⟨rfl, owner_leaf_glyph (n := { kind := k, pGlyph := some g }) kl rfl, ?_, ?_, ?_⟩
+  · refine ⟨fun hh => by simp [kl] at hh, fun hk => ?_, fun hk => ?_, fun hk => ?_⟩ <;>
+      (simp only at hk; rw [hk] at kl; simp [Kind.isLeaf] at kl)
+  · intro a; simp [ancVia, kg]
+  · refine ⟨fun hk => ?_, fun hk => ?_⟩ <;> (simp only at hk; rw [hk] at kl; simp [Kind.isLeaf] at kl)
+
+theorem spawnOK_libInLayer {h : Heap} {l : Id} (kl : h.kindOf l = some .layer) :
+    SpawnOK h l { kind := .lib, pLayer := some l } := by
+  refine ⟨rfl, by simp [owner], ?_, ?_, ?_⟩
+  · simp [Kind.isLeaf]
+  · intro a; simp [ancVia, kl]
+  · simp
+
+theorem spawnOK_libInFont {h : Heap} {f : Id} (kf : h.kindOf f = some .font) :
+    SpawnOK h f { kind := .lib, pFont := some f } := by
+  refine ⟨rfl, by simp [owner], ?_, ?_, ?_⟩
+  · simp [Kind.isLeaf]
+  · intro a; simp [ancVia, kf]
+  · simp
+
+theorem spawnOK_layerInSet {h : Heap} {s : Id} (ks : h.kindOf s = some .layerSet) (hf : ancOf h .font s ≠ none) :
+    SpawnOK h s { kind := .layer, pLayerSet := some s } := by
+  refine ⟨rfl, by simp [owner], ?_, ?_, ?_⟩
+  · simp [Kind.isLeaf]
+  · intro a; simp [ancVia, ks]
+  · simp [ancVia, ks, hf]
+
+theorem spawnOK_setInFont {h : Heap} {f : Id} (kf : h.kindOf f = some .font) :
+    SpawnOK h f { kind := .layerSet, pFont := some f } := by
+  refine ⟨rfl, by simp [owner], ?_, ?_, ?_⟩
+  · simp [Kind.isLeaf]
+  · intro a; simp [ancVia, kf]
+  · simp
+
+theorem wired_spawnInGlyph {ds} {h : Heap} (w : WiredX ds h) {g : Id} {k : Kind} (kg : h.kindOf g = some .glyph)
+    (kl : k.isLeaf = true) : WiredX ds (spawnInGlyph h g k) := by
+  obtain ⟨ng, eg, kng⟩ := kindOf_some kg
+  exact wired_spawn w eg (by simp [kng, allowed, kl]) (spawnOK_leafInGlyph kg kl)
+
+/-- kinds of existing objects survive everything we do; a helper to carry them along -/
+theorem kindOf_spawn {h : Heap} {p : Id} {n' : Node} {i : Id} {k : Kind} (e : h.kindOf i = some k) :
+    (spawn h p n').kindOf i = some k := by
+  obtain ⟨n, en, kn⟩ := kindOf_some e
+  have hi : i ≠ h.next := fun e2 => by rw [e2, get_next] at en; cases en
+  simp only [Heap.kindOf, get_spawn, get_addKid, get_alloc]
+  by_cases e1 : p = i
+  · subst e1; simp [hi, en, kn]
+  · simp [e1, hi, en, kn]
+
+theorem wired_spawnMany {ds} {g : Id} {k : Kind} (kl : k.isLeaf = true) (n : Nat) :
+    ∀ {h : Heap}, WiredX ds h → h.kindOf g = some .glyph →
+      WiredX ds (spawnMany h g k n) ∧ (∀ i kk, h.kindOf i = some kk → (spawnMany h g k n).kindOf i = some kk) := by
+  induction n with
+  | zero => intro h w kg; exact ⟨w, fun i kk e => e⟩
+  | succ n ih =>
+    intro h w kg
+    unfold spawnMany
+    have w1 := wired_spawnInGlyph w kg kl
+    have kg1 : (spawnInGlyph h g k).kindOf g = some .glyph := kindOf_spawn kg
+    obtain ⟨w2, k2⟩ := ih w1 kg1
+    exact ⟨w2, fun i kk e => k2 i kk (kindOf_spawn e)⟩
+
+theorem wired_spawnChildren {ds} {h : Heap} (w : WiredX ds h) {g : Id} (kg : h.kindOf g = some .glyph) (spec : List Nat) :
+    WiredX ds (spawnChildren h g spec) ∧ (∀ i kk, h.kindOf i = some kk → (spawnChildren h g spec).kindOf i = some kk) := by
+  unfold spawnChildren
+  simp only
+  obtain ⟨w1, k1⟩ := wired_spawnMany (k := .contour) (by simp [Kind.isLeaf]) (spec.getD 0 0) w kg
+  obtain ⟨w2, k2⟩ := wired_spawnMany (k := .component) (by simp [Kind.isLeaf]) (spec.getD 1 0) w1 (k1 g _ kg)
+  obtain ⟨w3, k3⟩ := wired_spawnMany (k := .anchor) (by simp [Kind.isLeaf]) (spec.getD 2 0) w2 (k2 g _ (k1 g _ kg))
+  obtain ⟨w4, k4⟩ := wired_spawnMany (k := .guideline) (by simp [Kind.isLeaf]) (spec.getD 3 0) w3
+    (k3 g _ (k2 g _ (k1 g _ kg)))
+  obtain ⟨w5, k5⟩ := wired_spawnMany (k := .image) (by simp [Kind.isLeaf]) (spec.getD 4 0) w4
+    (k4 g _ (k3 g _ (k2 g _ (k1 g _ kg))))
+  obtain ⟨w6, k6⟩ := wired_spawnMany (k := .lib) (by simp [Kind.isLeaf]) (spec.getD 5 0) w5
+    (k5 g _ (k4 g _ (k3 g _ (k2 g _ (k1 g _ kg)))))
+  exact ⟨w6, fun i kk e => k6 i kk (k5 i kk (k4 i kk (k3 i kk (k2 i kk (k1 i kk e)))))⟩
+
 end Parents
 end DefconModel
